@@ -365,6 +365,13 @@ func TestCheck(t *testing.T) {
 		if _, err := run.LoadReplay(cfg.Replay, &c); err != nil {
 			t.Fatal(err)
 		}
+		if c.Slice == -1 {
+			rec.Eval()
+			if msg := bigCreateCase(); msg != "" {
+				rec.Fail("bigfile", c, "", msg)
+			}
+			return
+		}
 		do(c)
 		return
 	}
@@ -372,6 +379,13 @@ func TestCheck(t *testing.T) {
 		var c Case
 		if _, err := run.LoadReplay(f, &c); err == nil && cfg.Shard == 0 {
 			do(c)
+		}
+	}
+	if cfg.Thorough() && cfg.Shard == 7%cfg.NShards {
+		rec.Eval()
+		rec.Class("file>4GiB")
+		if msg := bigCreateCase(); msg != "" {
+			rec.Fail("bigfile", Case{Slice: -1}, "", msg)
 		}
 	}
 	// files whose IDs agree in their most significant 32 bits: the ID order in the main packet (and with it the constants
